@@ -131,26 +131,30 @@ def _run_verus_unit(unit, work, seed=None):
     # a function whose body uses a construct Verus cannot take is retried as external_body (contract kept, body
     # undecided -> only a natively replayed counterexample can raise an alarm for it)
     force = set()
-    for attempt in range(4):
-        r = run_verus_unit_once(unit, work, seed, force)
+    dropb = set()
+    for attempt in range(6):
+        r = run_verus_unit_once(unit, work, seed, force, dropb=dropb)
         new = set(r.pop('unsupported_fns', [])) - force
-        if not new:
+        newd = set(r.pop('uncompilable_fns', [])) - dropb
+        if not new and not newd:
             break
         force |= new
+        dropb |= newd
     if any(t.startswith('resource:') and 'time limit' not in t for t in r.get('tool_errors', [])):
         # a function ran out of solver budget (never on the unchanged tree): one retry with four times the budget, so that
         # a genuinely failing obligation is reported as such instead of as "inconclusive"
-        r2 = run_verus_unit_once(unit, work, seed, force, rlimit=str(int(float(VERUS_RLIMIT) * 4)))
+        r2 = run_verus_unit_once(unit, work, seed, force, rlimit=str(int(float(VERUS_RLIMIT) * 4)), dropb=dropb)
         r2.pop('unsupported_fns', None)
+        r2.pop('uncompilable_fns', None)
         r2['rlimit_retry'] = True
         return r2
     return r
 
 
-def run_verus_unit_once(unit, work, seed, force, rlimit=None):
+def run_verus_unit_once(unit, work, seed, force, rlimit=None, dropb=None):
     t0 = time.time()
     try:
-        out_rs, meta = vx.build_unit(unit, work, force_external=force)
+        out_rs, meta = vx.build_unit(unit, work, force_external=force, drop_body=dropb)
     except vx.LostAnchor as e:
         # the contracts no longer find the code they are written for: the unit is unverifiable (undecided); the caller
         # tries the native finders of the property and otherwise reports Inconclusive (exit 2)
@@ -197,6 +201,7 @@ def run_verus_unit_once(unit, work, seed, force, rlimit=None):
     failures = []
     tool_errors = []
     unsupported_fns = []
+    uncompilable_fns = []
     for d in diags:
         msg = d['message']
         kind = None
@@ -226,6 +231,10 @@ def run_verus_unit_once(unit, work, seed, force, rlimit=None):
                     cfn = linemap[idx]['fn']
             if cfn and d.get('code') and cfn not in force:
                 unsupported_fns.append(cfn)
+                continue
+            if cfn and d.get('code') and cfn in force and cfn not in (dropb or set()):
+                # even with the proof text gone the body does not compile in its extracted form: retried with the body stubbed out
+                uncompilable_fns.append(cfn)
                 continue
             tool_errors.append("%s @ %s" % (msg, [(s['line_start']) for s in d['spans']][:2]))
             continue
@@ -272,9 +281,9 @@ def run_verus_unit_once(unit, work, seed, force, rlimit=None):
         failures.append(dict(obligation=ob_id, owner=owner, fn=fn, kind=kind, where=where, message=msg,
                              rendered=d.get('rendered', '')[:3000]))
     vr = j.get('verification-results', {})
-    if vr.get('encountered-vir-error') and not unsupported_fns:
+    if vr.get('encountered-vir-error') and not unsupported_fns and not uncompilable_fns:
         tool_errors.append('VIR error')
-    if unsupported_fns:
+    if unsupported_fns or uncompilable_fns:
         tool_errors = []
     if not diags and not vr.get('success', False):
         tool_errors.append('verus failed without diagnostics: ' + r.stderr[-600:])
@@ -287,7 +296,7 @@ def run_verus_unit_once(unit, work, seed, force, rlimit=None):
                                    rlimit=fb['rlimit'], success=fb['success']))
     except Exception:
         pass
-    return dict(unsupported_fns=unsupported_fns, unit=unit, verified=vr.get('verified', 0), errors=vr.get('errors', 0), failures=failures,
+    return dict(unsupported_fns=unsupported_fns, uncompilable_fns=uncompilable_fns, unit=unit, verified=vr.get('verified', 0), errors=vr.get('errors', 0), failures=failures,
                 tool_errors=tool_errors, fstats=fstats, meta=meta, wall_s=round(time.time() - t0, 2),
                 smt_ms=j.get('times-ms', {}).get('smt', {}).get('smt-run', 0), cmd=' '.join(cmd[:1] + ['<unit>.rs'] + cmd[2:]),
                 rs=out_rs)
@@ -545,6 +554,7 @@ def decide(prop, cfg, tier, seed, work, args, t0):
     out_lines = []
     # functions whose proof text lost its anchors: their failures are UNDECIDED unless a counterexample replays natively
     undecided = []
+    standins = []   # undecided functions for which a bounded stand-in passed
     for fn, anchors in lost.items():
         owned_here = any(o['fn'] == fn for o in obligations)
         if owned_here and any(('loop anchor' in a or 'unsupported-construct' in a) for a in anchors) and not any(v['fn'] == fn for v in violations):
@@ -560,14 +570,21 @@ def decide(prop, cfg, tier, seed, work, args, t0):
         replay = dict(property=prop, obligation=v['obligation'], function=v['fn'], kind=v['kind'], where=v['where'],
                       verifier_message=v['message'], verifier_output=v['rendered'], unit=v['unit'])
         found = None
+        ran = []
         if v.get('concrete'):
             found = v['concrete']
         elif not args.no_finder:
             try:
-                found = kanirun.find_counterexample(prop, v, cfg, work)
+                found = kanirun.find_counterexample(prop, v, cfg, work, ran=ran)
             except Exception as e:  # the finder never decides anything
                 replay['finder_error'] = str(e)[:500]
         if v.get('undecided') and not (found and found.get('replayed_natively')):
+            cov = [r for r in ran if r['covers']]
+            if cov:
+                # the proof text no longer applies to the changed body, but a bounded check that drives exactly this function against an
+                # independent reference ran on the changed code and passed: the function is reported as BOUNDED (never as proved)
+                standins.append(dict(fn=v['fn'], obligation=v['obligation'], lost=lost.get(v['fn'], []), finders=cov))
+                continue
             undecided.append("%s (lost: %s)" % (v['obligation'], '; '.join(lost.get(v['fn'], []))))
             continue
         if found:
@@ -584,6 +601,10 @@ def decide(prop, cfg, tier, seed, work, args, t0):
         print("  failed obligation: %s  [%s] %s @ %s" % (v['obligation'], v['kind'], v['message'][:120], v['where']))
 
     n_obl = len([o for o in obligations if not o['assumed']])
+    for sd in standins:
+        for r in sd['finders']:
+            bounded_checks.append(dict(harness='standin:%s' % r['name'], bound=r['bound'], result='passed', time_s=None,
+                                       stands_in_for=sd['fn'], why='proof text no longer applies to the changed body: ' + '; '.join(sd['lost'])[:300]))
     disc = len([o for o in obligations if not o['assumed'] and o['id'] not in failed_ids])
     # safety obligations fail under refined ids (fn#kind@loc): count the function's safety obligation as failed
     failed_fns = set(f['fn'] for f in failed if f['kind'] in ('pre', 'overflow', 'shift', 'divzero', 'unreachable', 'term', 'assert'))
@@ -618,6 +639,8 @@ def decide(prop, cfg, tier, seed, work, args, t0):
         extraction_rule_counts={r: len([x for x in rules if x['rule'] == r]) for r in sorted(set(x['rule'] for x in rules))},
         extraction_rewrites=[x for x in rules if x['rule'] in ('RW', 'D1')][:40],
         not_decided_here=cfg.get('not_decided_here', []),
+        bounded_standins=[dict(function=sd['fn'], obligation=sd['obligation'], lost_proof_text=sd['lost'],
+                               bounded_checks=[r['name'] for r in sd['finders']]) for sd in standins],
     )
     ev = dict(property_id=prop, tier=tier, seed=seed, level=level, coverage=coverage,
               assumptions=sorted(set(assumptions + cfg.get('assumptions', []))),
@@ -635,8 +658,11 @@ def decide(prop, cfg, tier, seed, work, args, t0):
         print("  note: %s (undecided part; the violation below was found elsewhere)" % u[:300])
     for ln in out_lines:
         print(ln)
+    for sd in standins:
+        print("BOUNDED: property=%s function=%s obligation=%s: the proof text no longer applies to the changed body (%s); bounded stand-in %s passed on it - not counted as proved" % (
+            prop, sd['fn'], sd['obligation'], '; '.join(sd['lost'])[:200], ', '.join(r['name'] for r in sd['finders'])))
     print("%s: %d obligations, %d discharged, %d known findings, %d violations, %d bounded checks, %.1fs" % (
-        prop, n_obl, disc, kf_obl, len(violations), len(bounded_checks), time.time() - t0))
+        prop, n_obl, disc, kf_obl, len(out_lines), len(bounded_checks), time.time() - t0))
     return 1 if out_lines else 0
 
 
